@@ -56,6 +56,12 @@ LayerVerdict(s) ==
 
 StringsUpTo(n) == UNION {[1..k -> Alphabet] : k \in 0..n}
 
+\* every printable ASCII punctuation character, alone and next to a letter (a character class
+\* written as a range can admit any of them)
+Punct == {"!", "DQ", "#", "$", "%", "&", "'", "(", ")", "*", "+", ",", "-", ".", "/", ":", ";", "<", "=", ">", "?", "@",
+          "[", "BS", "]", "^", "_", "`", "{", "|", "}", "~"}
+PunctStrings == UNION {{<<c>>, <<"a", c>>, <<c, "Z">>, <<"7", c, "a">>} : c \in Punct}
+
 \* reserved words and their one-character neighbours
 Reserved == {App, Config, Sbom, Build, Launch, Store}
 Edits(w) ==
@@ -66,7 +72,7 @@ Edits(w) ==
 NearReserved == UNION {Edits(w) : w \in Reserved}
 
 NameVector(s) == [s |-> s, id |-> IdVerdict(s), process |-> ProcessVerdict(s), key |-> KeyVerdict(s), layer |-> LayerVerdict(s)]
-NameCases(n) == \A s \in StringsUpTo(n) \cup NearReserved : PrintT(<<"NV", ToJson(NameVector(s))>>)
+NameCases(n) == \A s \in StringsUpTo(n) \cup NearReserved \cup PunctStrings : PrintT(<<"NV", ToJson(NameVector(s))>>)
 
 -----------------------------------------------------------------------------
 (* versions *)
